@@ -201,7 +201,7 @@ pub fn model_text<'a>(model: &'a Model, text: &'a str) -> String {
     out
 }
 
-pub const SHAPES: [&str; 36] = [
+pub const SHAPES: [&str; 40] = [
     "a.E: boom",
     "a.E",
     "x.Unknown: msg",
@@ -218,6 +218,13 @@ pub const SHAPES: [&str; 36] = [
     "    at a.c.r(Unknown Source:2)",
     // same class, method and line as the shape before, another file (the class has no sourceFile header: the file is the frame's own)
     "    at a.c.r(G.java:2)",
+    // two colons inside the parentheses: "2:5" is not a line number, so this is not a frame line
+    "    at a.b.m(F.java:2:5)",
+    // a known throwable without message and with trailing blanks (trimmed like every line); the same behind the prefix
+    "a.E  ",
+    "Caused by: a.E\t",
+    // a known throwable whose message ends in a colon
+    "a.E: usage:",
     "Caused by: a.E: inner",
     "Caused by: x.Unknown",
     "  Caused by: a.E: indented",
@@ -442,7 +449,7 @@ pub fn run_c07(tier: Tier) -> i32 {
         prop: "C07",
         tier,
         level: "model_checking",
-        rule: format!("every text of 1..={} lines over 36 line shapes (plus long lines and run-length texts: 99..1001 unresolved frames followed by a resolving one; plus 5 long lines of 1.1 kB / 70 kB placed first, between and after <= 2 other shapes) (throwables known/unknown with/without message, message containing ': ' and frame-like text, frames space/tab/trailing-blank indented that resolve to 2 / 1 / 0 frames, unknown method, unknown class, line outside every range, Native Method, Unknown Source, two frames differing only in their file, 'Caused by:' known/unknown/indented, '... n more', blank, 'at x(y:1)', non-ASCII) x 3 terminator policies (LF, CRLF, no final newline) x 4 mappings (empty; inline group + sourceFile; one that knows none of the names; the second one with R8's indented rewriteFrame / synthesized / outline comments below its member lines) x {{mapper (for every second mapping the one built with the parameter index), cache}}; oracle = text model R12 with an independent line classifier. states = (text, mapping); distinct = distinct expected outputs; non-trivial = outputs that differ from the normalised input", depth),
+        rule: format!("every text of 1..={} lines over 40 line shapes (plus long lines and run-length texts: 99..1001 unresolved frames followed by a resolving one; plus 5 long lines of 1.1 kB / 70 kB placed first, between and after <= 2 other shapes) (throwables known/unknown with/without message, message containing ': ' and frame-like text, frames space/tab/trailing-blank indented that resolve to 2 / 1 / 0 frames, unknown method, unknown class, line outside every range, Native Method, Unknown Source, two frames differing only in their file, 'Caused by:' known/unknown/indented, '... n more', blank, 'at x(y:1)', non-ASCII) x 3 terminator policies (LF, CRLF, no final newline) x 4 mappings (empty; inline group + sourceFile; one that knows none of the names; the second one with R8's indented rewriteFrame / synthesized / outline comments below its member lines) x {{mapper (for every second mapping the one built with the parameter index), cache}}; oracle = text model R12 with an independent line classifier. states = (text, mapping); distinct = distinct expected outputs; non-trivial = outputs that differ from the normalised input", depth),
         bounds: json!({"lines": depth, "shapes": SHAPES.to_vec(), "terminators": ["LF","CRLF","LF without final newline"], "mappings": mappings().iter().map(|(l, m)| json!({"label":l,"text":esc(&print_file(m, Term::Lf))})).collect::<Vec<_>>()}),
         assumptions: vec!["lines are split like str::lines (LF, CR dropped only directly before LF)".into()],
         trusted_base: vec!["rustc/std (str::trim, str::parse::<usize>)".into(), "text model + line classifier in pgmc/src/props/e3.rs".into(), "reference model pgmc/src/model.rs".into()],
@@ -643,6 +650,34 @@ fn c08_sorted_run(_builts: &[Built], acc: &mut Acc) {
     }
 }
 
+/// frames with files that contain the delimiters of the frame syntax, and with lines that are congruent to a mapped
+/// line modulo 2^32 (they do not resolve: the frame is kept), on M1 / M4 (mapper and cache)
+fn c08_special_frames(builts: &[Built], acc: &mut Acc) {
+    let files = ["F.java", "F(1).kt", "R (c) [2].java", "F) ~[x", "Unknown Source", "<unknown>", "a b", "\u{e9}.kt"];
+    let lines = [2usize, 5, 99, (1usize << 32) + 2, (1usize << 33) + 1, (1usize << 32) + 5, usize::MAX];
+    for b in builts.iter().filter(|b| b.label.starts_with("M1") || b.label.starts_with("M4")) {
+        let mut ab = Aligned::new(&[]);
+        with_both(b, &mut ab, |m, c| {
+            for (cl, me) in [("a.b", "m"), ("a.c", "r"), ("a.b", "n")] {
+                for f in files {
+                    for l in lines {
+                        for exc in [Some(("a.E".to_string(), Some("boom".to_string()))), None] {
+                            let t = OTrace { exception: exc.clone(), frames: vec![(cl.to_string(), me.to_string(), l, Some(f.to_string())), ("x.Unknown".to_string(), "m".to_string(), l, Some(f.to_string()))], cause: None };
+                            check_typed(b, &t, true, m, c, acc);
+                            // the same frames in a cause
+                            if exc.is_some() {
+                                let t2 = OTrace { exception: exc.clone(), frames: vec![], cause: Some(Box::new(t.clone())) };
+                                check_typed(b, &t2, true, m, c, acc);
+                            }
+                            acc.count("special-file / large-line typed traces", 1);
+                        }
+                    }
+                }
+            }
+        });
+    }
+}
+
 fn c08_param_frames(builts: &[Built], acc: &mut Acc) {
     let pool: Vec<(String, String, String)> = {
         let mut v = Vec::new();
@@ -755,6 +790,9 @@ pub fn run_c08(tier: Tier) -> i32 {
         if (ti, fi) == (2, 0) {
             c08_sorted_run(&builts, acc);
         }
+        if (ti, fi) == (3, 0) {
+            c08_special_frames(&builts, acc);
+        }
         let mut abs: Vec<Aligned> = vec![Aligned::new(&[]), Aligned::new(&[])];
         let (a1, a2) = abs.split_at_mut(1);
         with_both(&builts[4], &mut a1[0], |m1, c1| {
@@ -810,7 +848,7 @@ pub fn run_c08(tier: Tier) -> i32 {
         prop: "C08",
         tier,
         level: "model_checking",
-        rule: format!("every typed trace with a top level from {} levels (exception absent / known / unknown x message / none; 0..2 frames over 8 frame kinds: resolving to 2 frames, unknown method, unknown class, entry without lines, known method with a line outside every range, two class names with a module prefix containing '/', a frame resolving to 40 frames) and cause chains of depth 0..={} (first cause level: {}; deeper levels: {} ) x 2 mappings x {{mapper, cache}}; plus typed traces of 1..2 frames built with StackFrame::with_parameters over 21 (class, method, parameter list) triples (incl. names and parameter strings in prefix relation with a '$' continuation) (a resolving frame is replaced by the entries with that parameter list, any other is kept unchanged including its parameter list; the mapper without the index keeps all or resolves likewise) on mapper / mapper-with-index / cache; plus long traces (99..1001 unresolved frames followed by resolving ones, frames that differ only in their file); plus two-frame traces at every line of a method with 16 / 32 ascending ranges and one enclosing range at every position; oracle R13 (same depth, every throwable remapped-or-identical, every frame expanded-or-identical, order kept) and, for every trace, printed typed result == text API on the printed input. distinct = distinct expected traces; non-trivial = expected != input", nlevels, max_depth, if t { "all levels with an exception" } else { "levels with an exception and <= 1 frame" }, if t { "depth 2: the first 40 levels with an exception, depth 3: the 8-level pool {known, unknown} x {no frame, resolving, '/'-class, 40-deep}; plus depth-4 chains: first level <= 1 frame, then the 8-level pool" } else { "the 8-level pool {known, unknown} x {no frame, resolving, '/'-class, 40-deep}" }),
+        rule: format!("every typed trace with a top level from {} levels (exception absent / known / unknown x message / none; 0..2 frames over 8 frame kinds: resolving to 2 frames, unknown method, unknown class, entry without lines, known method with a line outside every range, two class names with a module prefix containing '/', a frame resolving to 40 frames) and cause chains of depth 0..={} (first cause level: {}; deeper levels: {} ) x 2 mappings x {{mapper, cache}}; plus typed traces of 1..2 frames built with StackFrame::with_parameters over 21 (class, method, parameter list) triples (incl. names and parameter strings in prefix relation with a '$' continuation) (a resolving frame is replaced by the entries with that parameter list, any other is kept unchanged including its parameter list; the mapper without the index keeps all or resolves likewise) on mapper / mapper-with-index / cache; plus long traces (99..1001 unresolved frames followed by resolving ones, frames that differ only in their file); plus traces whose frames carry files with '(' ')' '[' blanks and lines congruent to a mapped line modulo 2^32, at top level and in a cause; plus two-frame traces at every line of a method with 16 / 32 ascending ranges and one enclosing range at every position; oracle R13 (same depth, every throwable remapped-or-identical, every frame expanded-or-identical, order kept) and, for every trace, printed typed result == text API on the printed input. distinct = distinct expected traces; non-trivial = expected != input", nlevels, max_depth, if t { "all levels with an exception" } else { "levels with an exception and <= 1 frame" }, if t { "depth 2: the first 40 levels with an exception, depth 3: the 8-level pool {known, unknown} x {no frame, resolving, '/'-class, 40-deep}; plus depth-4 chains: first level <= 1 frame, then the 8-level pool" } else { "the 8-level pool {known, unknown} x {no frame, resolving, '/'-class, 40-deep}" }),
         bounds: json!({"top_levels": nlevels, "max_cause_depth": max_depth, "throwables": THROWABLES.iter().map(|t| format!("{:?}", t)).collect::<Vec<_>>(), "frames": FRAMES.iter().map(|f| format!("{:?}", f)).collect::<Vec<_>>()}),
         assumptions: vec!["canonical printed form: frames carry a file, cause levels carry an exception, the top level has an exception or a frame".into()],
         trusted_base: vec!["rustc/std".into(), "reference model pgmc/src/model.rs + model_typed in pgmc/src/props/e3.rs".into()],
@@ -849,9 +887,13 @@ pub fn recheck_typed(case: &Value) -> Vec<String> {
 // C17: print -> parse round trip
 
 const RT_CLASSES: [&str; 6] = ["a.b.Err", "x.Y$Z", "\u{e9}.\u{dc}", "Caused", "Process", "FATAL"];
-const RT_MESSAGES: [Option<&str>; 14] = [
+const RT_MESSAGES: [Option<&str>; 17] = [
     None,
     Some("m"),
+    // messages that end in or consist of colons
+    Some("usage:"),
+    Some("x::"),
+    Some(":"),
     Some("x: y"),
     Some("Caused by: z"),
     Some("at a.b(c:1)"),
